@@ -203,7 +203,14 @@ impl Ctx {
             self.rep.sample(|| json!({"case": c.to_json(), "outcome": out}));
         }
         for f in &v.findings {
-            let sig = format!("C14|{}|{}", c.fam.name(), f.kind);
+            // input class: the two-task race that needs a driver yielding between poll_ready and start_send
+            let gap_dependent = f.kind.starts_with("panic in start_send") || f.kind.starts_with("start_send without");
+            let class = if gap_dependent && c.fam == Fam::LazySinkSource && c.plan.gap_yield && c.with_reader {
+                "|driver yields between poll_ready and start_send while the source half is polled"
+            } else {
+                ""
+            };
+            let sig = format!("C14|{}|{}{}", c.fam.name(), f.kind, class);
             let n = self.per_sig.entry(sig.clone()).or_insert(0);
             *n += 1;
             let case = if *n <= 3 { c.to_json() } else { vcommon::Value::Null };
@@ -697,7 +704,7 @@ fn main() {
                     }
                 }
             }
-            for _ in 0..60 {
+            for _ in 0..60 * args.shard.1 {
                 cases.push(random_case(&mut rng, 8));
             }
             for c in cases {
@@ -745,17 +752,24 @@ fn main() {
     } else {
         ctx.rep.require(ctx.stats.iter().map(|s| s.runs).sum::<u64>() > 0 || args.shard.1 > 200, "miri shard ran nothing");
     }
-    let rule = "Real sinktools adaptors (map, filter, filter_map, inspect, flat_map, flatten, unzip, for_each, try_for_each, send_iter, send_stream, \
-demux_map, demux_map_lazy, demux_var with 2 and 3 sinks, LazySink, LazySource, LazySinkSource, and four SinkBuild chains) are driven by a Sink-contract-obeying \
+    let bounds = match args.tier {
+        Tier::Quick => "k = 2 for single-sink families and for sticky two-sink families (unzip, demux_map, demux_map_lazy, demux_var2), fickle two-sink: k = 2 for <= 3 items and 1 for 4 items; \
+three-sink demux_var: items <= 3, sticky k = 2 (1 at 3 items), fickle k = 1; two-sink SinkBuild chains: items <= 2/3, k = 1; init-future scripts of <= 2 Pendings; LazySinkSource: items <= 3, schedule bit-strings of length 4; 20 000 random runs",
+        Tier::Thorough => "k = 3 for single-sink families and for sticky two-sink families (unzip, demux_map, demux_map_lazy, demux_var2), fickle two-sink: k = 2; \
+three-sink demux_var: items <= 4, sticky k = 2 (1 at 4 items), fickle k = 1; two-sink SinkBuild chains: items <= 3, k = 2 sticky / 1 fickle; init-future scripts of <= 3 Pendings; LazySinkSource: items <= 4, schedule bit-strings of length 5; 1 000 000 random runs",
+        Tier::Miri => "Miri tier: a fixed slice of ~6 scripted cases per family (Pendings in every phase, one injected error, init Pending/Err) plus 60 random cases of length <= 8 per shard",
+    };
+    let rule = format!("Real sinktools adaptors (map, filter, filter_map, inspect, flat_map, flatten, unzip, for_each, try_for_each, send_iter, send_stream, \
+demux_map, demux_map_lazy, demux_var with 2 and 3 sinks, LazySink, LazySource, LazySinkSource, and five SinkBuild chains) are driven by a Sink-contract-obeying \
 driver on a hand-written executor with counting wakers against scripted CheckSinks (sticky: Ready(Ok) stays until a start_send; fickle: may pend again) \
-that record every call. Bounded-exhaustive part: item sequences of length <= 4 over {0,1,2} (keys for demux; one sequence per length where values are \
-irrelevant) x every placement of <= k Pendings per inner sink in each of the ready/flush/close phases (k = 2 quick / 3 thorough for single-sink families and \
-sticky two-sink families, 2 for fickle two-sink families; three-sink demux_var: items <= 3 quick / 4 thorough, k = 2 sticky / 1 fickle), the full product over the inner \
-sinks of unzip/demux, x driver plans (final flush or close-only, a complete flush after the first item); one injected error at every (inner sink, phase, call index) \
-for items <= 3; lazy family: init-future scripts of <= 2/3 Pendings (self-waking or woken by an external event fired at quiescence) x Ok/Err outcome x flush/close \
-interleavings, LazySinkSource with the sink driver and the source reader as two tasks with distinct counting wakers under every schedule bit-string of length 4/5, \
-with and without a yield between poll_ready and start_send. Random part: 20 000 / 1 000 000 runs, length <= 30, Pending density 0-60 %, 15 % injected errors. \
-A run is non-trivial if an inner sink answered Pending between two of its items or during flush/close, or (lazy family) if the init future answered Pending at least once.";
+that record every call. Bounded-exhaustive part: every item sequence of length <= 4 over {{0,1,2}} (demux: keys; one sequence per length where the values cannot matter) \
+x every placement of <= k Pendings per inner sink in each of the ready/flush/close phases, as the full product over the inner sinks of unzip/demux, \
+x driver plans (final flush or close-only, a complete flush after the first item; multi-sink: alternative plans sticky with k <= 1); one injected error at every \
+(inner sink, phase, call index) for items <= 3; lazy family: init-future scripts (each Pending either self-waking or woken by an external event fired at quiescence) x Ok/Err \
+outcome x flush/close interleavings; LazySinkSource with the sink driver and the source reader as two tasks with distinct counting wakers under every schedule \
+bit-string, with and without a yield between poll_ready and start_send. Bounds of this tier: {bounds}. Random part: length <= 30, Pending density 0-60 %, 15 % injected errors. \
+A run is non-trivial if an inner sink answered Pending between two of its items or during flush/close, or (lazy family) if the init future answered Pending at least once.");
+    let rule = rule.as_str();
     ctx.rep.finish(rule, exhaustive);
 }
 
